@@ -37,7 +37,7 @@ func pickFrom[T any](g *G, label string, xs []T) T { return xs[g.n(label, len(xs
 
 // ---- leaves ----
 
-var plainNames = []string{"a", "b", "c", "k", "x1", "_u", "Col9", "tbl", "count_", "kind", "on", "with", "where", "project", "top", "as", "join", "T", "NULL", "True", "OR", "By", "In", "AND", "__subquery1", "__subquery2", "___subquery0"}
+var plainNames = []string{"a", "b", "c", "k", "x1", "_u", "Col9", "tbl", "count_", "kind", "on", "with", "where", "project", "top", "as", "join", "T", "NULL", "True", "OR", "By", "In", "AND", "__subquery1", "__subquery2", "___subquery0", "___subquery1", "___subquery2", "____subquery1", "__subquery", "$t", "$tmp_1", "$Left"}
 var quotedNames = []string{"a b", "select", "and", "by", "x`y", "", "é", "a.b", "1st", "count()", "from", "null", "true", "false", "a.b.c", ".x", "x.", "let", "$left", "$right"}
 var hostileNames = []string{`q"d`, `s'q`, `b\s`, `--c`, `/*c*/`, `a;b`, `tab	x`, "nul\x00x", "bad\xffutf", `x\`, `"`, `'`, "``", `$left`, `{p}`}
 var tableNames = []string{"T", "U", "Events", "tbl", "_t1", "__subquery0", "__subquery1"}
@@ -57,7 +57,7 @@ var BuiltinNames = []string{"not", "isnull", "isnotnull", "tolower", "toupper", 
 var PassThrough = []string{"f", "g2", "dateadd", "my_func", "F", "strlen", "COUNTIF", "bin"}
 
 var numSpellings = []string{"0", "1", "2", "7", "42", "007", "0x1F", "0X0a", "0xffffffffffffffff", ".5", "1.", "1.5", "0.25", "1e3", "1E+2", "1.e-1", "00.50", "9007199254740993", "123456789012345678901234567890", "1e400"}
-var intSpellings = []string{"0", "1", "2", "3", "10", "007", "0x1F", "0X0a", "18446744073709551615", "18446744073709551616", "340282366920938463463374607431768211456", "2147483648", "4294967296", "9223372036854775808"}
+var intSpellings = []string{"0", "1", "2", "3", "10", "007", "0x1F", "0X0a", "18446744073709551615", "18446744073709551616", "340282366920938463463374607431768211456", "2147483648", "4294967296", "9223372036854775808", "0x0000000000000000A", "0x00000000000000000000FFFF"}
 var strValues = []string{"", "a", "A", "b c", "Thunderstorm Wind", "x"}
 var hostileStrValues = []string{"it's", `say "hi"`, `back\slash`, `end\`, "tab\there", "nl\nline", "é", "--", "/* c */", ";", "' OR 1=1 --", `\'`, "\x00", "bad\xffutf", "`", `'; DROP TABLE t; --`, `\\`, "{p}", "a''b"}
 
